@@ -106,9 +106,25 @@ def run(tier: str) -> int:
                 continue
             path = e1.save_replay(PROP, dict(property=PROP, kind="monitor", name=spec["name"], sources=spec["sources"], opts=spec.get("opts", {}), event=e, code=r.get("code")))
             rep.violation(f"{spec['name']}: {e['kind']} at line {e['line']}: {e['detail']}", path)
+    # registers are allocated statically per function: a function that can be active twice at the same
+    # time (direct / mutual recursion) would keep both activations' values in the same registers, so
+    # such programs must be rejected (the shadow check cannot see it: both activations also share the
+    # virtual names)
+    from . import c06
+    from .. import comp
+
+    rec = {}
+    for rname, rsrc in c06.RECURSION.items():
+        for vec in vecs:
+            cap = comp.compile_capture(rsrc, append_version=False, **vec)
+            rec[f"{rname}:{vec}"] = "rejected" if not cap.ok else "compiled"
+            if cap.ok:
+                path = e1.save_replay(PROP, dict(property=PROP, kind="closed", name=f"recursion:{rname}", sources=rsrc, opts=vec, code=cap.code))
+                rep.violation(f"recursion:{rname} {vec}: a recursive function was compiled: two live activations share one static register frame", path)
     from .c07 import _sum_solver
 
     rep.coverage = dict(
+        recursion=rec,
         evaluations=len(results),
         distinct_nontrivial=nontrivial,
         rule="programs = seeded call-heavy generator x 3 option vectors + repository sources x 2 vectors + register-pressure family (k simultaneously live values, k in 6..24, in main / in a function, with / without a call in between); non-trivial = compiled and executed in lock-step with >= 1 register read checked; k > 16 members must be rejected",
